@@ -652,28 +652,44 @@ class Cont(Exception):
 
 
 class Lambda:
+    """closure: by-value captures are snapshotted when the lambda expression is evaluated, by-reference captures alias the enclosing
+    variables (capture kinds are read from the closure type's fields in the AST)"""
+
     def __init__(s, node, ex):
         cls = [c for c in node['inner'] if c.get('kind') == 'CXXRecordDecl'][0]
         s.m = [c for c in cls['inner'] if c.get('kind') == 'CXXMethodDecl' and c.get('name') == 'operator()'][0]
-        s.ex = ex   # captures by reference/value: the defining environment (by-value capture of later-mutated variables is not modelled)
+        s.ex = ex
+        fields = [f for f in cls['inner'] if f.get('kind') == 'FieldDecl']
+        inits = [c for c in node['inner'] if c.get('kind') not in ('CXXRecordDecl', 'CompoundStmt')]
+        s.byval, s.byref = {}, set()
+        for f, init in zip(fields, inits):
+            names = [x['referencedDecl']['name'] for x in walk(init) if x.get('kind') == 'DeclRefExpr' and 'referencedDecl' in x]
+            if not names:
+                continue            # e.g. capture of this
+            nm = names[0]
+            if f['type']['qualType'].rstrip().endswith('&'):
+                s.byref.add(nm)
+            else:
+                v = rval(ex.expr(init))
+                s.byval[nm] = v.copy() if isinstance(v, Mx) else (list(v) if isinstance(v, list) else v)
+        if len(fields) != len(inits):
+            raise Unsupported('lambda with %d captures and %d initialisers' % (len(fields), len(inits)))
 
     def __call__(s, *args):
-        e2 = Exec(dict(s.ex.env), s.ex.cb, s.ex.methods, s.ex.this)
+        env = dict(s.ex.env)
+        env.update(s.byval)
+        e2 = Exec(env, s.ex.cb, s.ex.methods, s.ex.this)
         e2.env.update(dict(zip(params_of(s.m), args)))
-        e2.parent_env = s.ex.env
         try:
             e2.stmt(body_of(s.m))
-        except Ret as r:
-            s._writeback(e2)
-            return r.v
-        s._writeback(e2)
-        return None
-
-    def _writeback(s, e2):
+            r = None
+        except Ret as rr:
+            r = rr.v
         ps = set(params_of(s.m))
-        for k, v in e2.env.items():
-            if k in s.ex.env and k not in ps:
-                s.ex.env[k] = v
+        for k in s.byref:
+            if k in e2.env and k not in ps:
+                s.ex.env[k] = e2.env[k]
+        return r
 
 
 # ------------------------------------------------------------------------------------------------ sympy -> z3
